@@ -66,7 +66,9 @@ fn main() {
     match cmd {
         "corr" => {
             let mut ctx = Ctx::new(&out, seed, tier);
-            match prop {
+            // a panic that escapes a harness module (an uncaught panic of the code under test) must not lose the run:
+            // it is recorded as a failing input of its own and the summary is still written
+            let run = std::panic::catch_unwind(std::panic::AssertUnwindSafe(|| match prop {
                 "C15" => c15::corr(&mut ctx),
                 "C19" => c19::corr(&mut ctx),
                 "C19sweep" => c19::sweep(&mut ctx),
@@ -97,11 +99,14 @@ fn main() {
                 }
                 "C07" => {
                     c07::corr_bounds(&mut ctx);
-                    ssk::corr_sets(&mut ctx)
+                    ssk::corr_sets(&mut ctx);
+                    stats::ssk_collision_statistics(&mut ctx)
                 }
                 "C06" => {
                     c07::corr_card(&mut ctx);
-                    ssk::corr_sets(&mut ctx)
+                    ssk::corr_sets(&mut ctx);
+                    ssk::corr_merge(&mut ctx);
+                    stats::ssk_cardinality_statistics(&mut ctx)
                 }
                 "C09" | "DENS" => dens::corr(&mut ctx),
                 "C08" => { dens::corr(&mut ctx); dens::selection_oracles(&mut ctx); stats::dens_statistics(&mut ctx); }
@@ -115,6 +120,11 @@ fn main() {
                     eprintln!("unknown property {}", prop);
                     std::process::exit(2);
                 }
+            }));
+            if let Err(e) = run {
+                let msg = if let Some(s) = e.downcast_ref::<&str>() { s.to_string() } else if let Some(s) = e.downcast_ref::<String>() { s.clone() } else { "panic".to_string() };
+                let case = ctx.current_case();
+                ctx.oracle_failure(serde_json::json!({"kind":"impl_violates_property","what":"the code under test panicked outside a guarded call (harness module aborted; later cases of this run were not executed)","case":case,"msg":msg}));
             }
             ctx.finish();
         }
